@@ -8,8 +8,16 @@
     by the harness oracle only (see evidence/C10.json, coverage.universal_theorems). *)
 From Coq Require Import Reals Lra List.
 From D3 Require Import Base.Ops Base.Vec Base.RVec Base.RVec2 Spec.Convex Spec.Prims Model.DistPrim
-  Proofs.DistBase Proofs.DistPoint Proofs.DistRect.
+  Proofs.DistBase Proofs.DistPoint Proofs.DistRect
+  Proofs.DistTriangle Proofs.DistRound Proofs.DistLine Proofs.DistPlane.
 Local Open Scope R_scope.
+(* [exists d c1 c2, f args = (d, c1, c2) /\ _]: name the components of the model's result *)
+Ltac ex3 := match goal with |- exists d c1 c2, ?e = _ /\ _ =>
+  let d := fresh "d" in let c1 := fresh "c" in let c2 := fresh "c" in
+  destruct e as [[d c1] c2]; exists d, c1, c2; split; [reflexivity|] end.
+Ltac ex3' := match goal with |- exists d c1 c2, ?e = _ =>
+  let d := fresh "d" in let c1 := fresh "c" in let c2 := fresh "c" in
+  destruct e as [[d c1] c2]; exists d, c1, c2; reflexivity end.
 
 (** d = 0 => the two returned points coincide in a common point (for every function below) *)
 Theorem C10_zero_common (A B : set3) d p1 p2 :
@@ -66,3 +74,156 @@ Print Assumptions C10_point_to_box.
 Example C10_point_to_box_nonvacuous :
   exists d cp, point_to_box (V 3 0 1) (P ident (V 0 0 0)) (V 2 2 2) = (d, cp).
 Proof. eexists; eexists; reflexivity. Qed.
+
+(** point_to_triangle (Ericson, 7 arms): non-degenerate triangle *)
+Theorem C10_point_to_triangle (p a b c : V3R) d cp :
+  cross (vsub b a) (vsub c a) <> vzero ->
+  point_to_triangle p a b c = (d, cp) -> feasible (point_set p) (triangle_set a b c) d p cp.
+Proof. exact (point_to_triangle_feasible p a b c d cp). Qed.
+Print Assumptions C10_point_to_triangle.
+Example C10_point_to_triangle_nonvacuous :
+  let a := V 0 0 0 in let b := V 1 0 0 in let c := V 0 1 0 in let p := V (1 / 4) (1 / 4) 1 in
+  cross (vsub b a) (vsub c a) <> vzero /\
+  exists d cp, point_to_triangle p a b c = (d, cp) /\
+    feasible (point_set p) (triangle_set a b c) d p cp /\ closest_on (triangle_set a b c) p d.
+Proof. exact point_to_triangle_nonvacuous. Qed.
+
+(** point_to_disk: unit normal, non-negative radius *)
+Theorem C10_point_to_disk (p c : V3R) (r : R) (n : V3R) d cp :
+  dot n n = 1 -> 0 <= r -> point_to_disk p c r n = (d, cp) -> feasible (point_set p) (disk_set c r n) d p cp.
+Proof. exact (point_to_disk_feasible p c r n d cp). Qed.
+Print Assumptions C10_point_to_disk.
+Example C10_point_to_disk_nonvacuous :
+  exists p c r n d cp, dot n n = 1 /\ 0 <= r /\ point_to_disk p c r n = (d, cp) /\ p <> cp.
+Proof. exact point_to_disk_nonvacuous. Qed.
+
+(** point_to_circle: unit normal; outside the epsilon band of the on-axis test: [circle_band_ok] = the in-plane part of
+    p - c has squared length >= eps, or it is exactly 0 and pytransform3d's perpendicular_to_vector is exact for n
+    (n_z = 0 or |n_z| >= machine epsilon) *)
+Theorem C10_point_to_circle (p c : V3R) (r : R) (n : V3R) (eps : R) d cp :
+  dot n n = 1 -> 0 <= r -> 0 < eps -> circle_band_ok p c n eps ->
+  point_to_circle p c r n eps = (d, cp) -> feasible (point_set p) (circle_set c r n) d p cp.
+Proof. exact (point_to_circle_feasible p c r n eps d cp). Qed.
+Print Assumptions C10_point_to_circle.
+Example C10_point_to_circle_nonvacuous :
+  exists p c r n eps d cp,
+    dot n n = 1 /\ 0 <= r /\ 0 < eps /\ circle_band_ok p c n eps /\ point_to_circle p c r n eps = (d, cp).
+Proof. exact point_to_circle_nonvacuous. Qed.
+
+(** INSIDE the band (0 < sqr_len < eps) the on-axis arm returns d = sqrt(r^2 + h^2), which is not |p - cp|:
+    the statement without the band hypothesis is false (witness: p 1/2000 off the axis of the unit circle) *)
+Theorem C10_point_to_circle_in_band_refuted :
+  exists p c r n eps d cp,
+    dot n n = 1 /\ 0 <= r /\ 0 < eps /\ 0 < circle_sqr_len p c n < eps /\
+    point_to_circle p c r n eps = (d, cp) /\ ~ feasible (point_set p) (circle_set c r n) d p cp.
+Proof. exact point_to_circle_band_feasible_refuted. Qed.
+Print Assumptions C10_point_to_circle_in_band_refuted.
+(** exactly on the axis with 0 < |n_z| < machine epsilon the returned point is off the circle's plane *)
+Theorem C10_point_to_circle_on_axis_refuted :
+  exists p c r n eps d cp,
+    dot n n = 1 /\ 0 <= r /\ 0 < eps /\ circle_sqr_len p c n = 0 /\
+    point_to_circle p c r n eps = (d, cp) /\ ~ feasible (point_set p) (circle_set c r n) d p cp.
+Proof. exact point_to_circle_axis_feasible_refuted. Qed.
+Print Assumptions C10_point_to_circle_on_axis_refuted.
+
+(** point_to_cylinder: rotation matrix, non-negative radius and length *)
+Theorem C10_point_to_cylinder (p : V3R) (T : Pose R) (r l : R) d cp :
+  is_rotation (rot T) -> 0 <= r -> 0 <= l -> point_to_cylinder p T r l = (d, cp) -> feasible (point_set p) (cylinder_of T r l) d p cp.
+Proof. exact (point_to_cylinder_feasible p T r l d cp). Qed.
+Print Assumptions C10_point_to_cylinder.
+Example C10_point_to_cylinder_nonvacuous :
+  exists p T r l d cp,
+    is_rotation (rot T) /\ 0 <= r /\ 0 <= l /\ point_to_cylinder p T r l = (d, cp).
+Proof. exact point_to_cylinder_nonvacuous. Qed.
+
+(** line_to_line: unit directions; both arms (also inside the epsilon band) *)
+Theorem C10_line_to_line (lp1 ld1 lp2 ld2 : V3R) (eps : R) d c1 c2 :
+  dot ld1 ld1 = 1 -> dot ld2 ld2 = 1 -> 0 < eps ->
+  line_to_line lp1 ld1 lp2 ld2 eps = (d, c1, c2) ->
+  feasible (line_set lp1 ld1) (line_set lp2 ld2) d c1 c2.
+Proof. exact (line_to_line_feasible lp1 ld1 lp2 ld2 eps d c1 c2). Qed.
+Print Assumptions C10_line_to_line.
+Example C10_line_to_line_nonvacuous :
+  exists d c1 c2, line_to_line (V 0 0 0) (V 1 0 0) (V 0 0 1) (V 0 1 0) (/ 2) = (d, c1, c2) /\
+    dot (V 1 0 0 : V3R) (V 1 0 0) = 1 /\ dot (V 0 1 0 : V3R) (V 0 1 0) = 1.
+Proof. ex3. split; vsimp; ring. Qed.
+
+(** line_to_line_segment: unit direction, eps <= 1 (the both-degenerate arm, which returns the points SWAPPED, is then unreachable); any segment *)
+Theorem C10_line_to_line_segment (lp ld s0 e0 : V3R) (eps : R) d c1 c2 :
+  dot ld ld = 1 -> eps <= 1 ->
+  line_to_line_segment lp ld s0 e0 eps = (d, c1, c2) ->
+  feasible (line_set lp ld) (segment_set s0 e0) d c1 c2.
+Proof. exact (line_to_line_segment_feasible lp ld s0 e0 eps d c1 c2). Qed.
+Print Assumptions C10_line_to_line_segment.
+Example C10_line_to_line_segment_nonvacuous :
+  exists d c1 c2, line_to_line_segment (V 0 0 0) (V 1 0 0) (V 5 1 0) (V 5 2 0) (/ 2) = (d, c1, c2) /\
+    dot (V 1 0 0 : V3R) (V 1 0 0) = 1 /\ / 2 <= 1.
+Proof. ex3. split; [vsimp; ring|lra]. Qed.
+
+(** line_segment_to_line_segment: unconditional (all 9 arms, any eps, degenerate segments included) *)
+Theorem C10_line_segment_to_line_segment (s1 e1 s2 e2 : V3R) (eps : R) d c1 c2 :
+  line_segment_to_line_segment s1 e1 s2 e2 eps = (d, c1, c2) ->
+  feasible (segment_set s1 e1) (segment_set s2 e2) d c1 c2.
+Proof. exact (line_segment_to_line_segment_feasible s1 e1 s2 e2 eps d c1 c2). Qed.
+Print Assumptions C10_line_segment_to_line_segment.
+Example C10_line_segment_to_line_segment_nonvacuous :
+  exists d c1 c2, line_segment_to_line_segment (V 0 0 0) (V 1 0 0) (V 0 2 0) (V 0 1 0) (/ 2) = (d, c1, c2).
+Proof. ex3'. Qed.
+
+(** line_to_plane: unit normal; both arms *)
+Theorem C10_line_to_plane (lp ld pp pn : V3R) eps d c1 c2 :
+  dot pn pn = 1 -> 0 < eps ->
+  line_to_plane lp ld pp pn eps = (d, c1, c2) ->
+  feasible (line_set lp ld) (plane_set pp pn) d c1 c2.
+Proof. exact (line_to_plane_feasible lp ld pp pn eps d c1 c2). Qed.
+Print Assumptions C10_line_to_plane.
+Example C10_line_to_plane_nonvacuous :
+  exists d c1 c2, line_to_plane (V 0 0 1) (V 1 0 0) (V 0 0 0) (V 0 0 1) (/ 2) = (d, c1, c2) /\ dot (V 0 0 1 : V3R) (V 0 0 1) = 1.
+Proof. ex3. vsimp; ring. Qed.
+
+(** line_segment_to_plane: unit normal; all 4 arms, any segment *)
+Theorem C10_line_segment_to_plane (s e pp pn : V3R) eps d c1 c2 :
+  dot pn pn = 1 -> 0 < eps ->
+  line_segment_to_plane s e pp pn eps = (d, c1, c2) ->
+  feasible (segment_set s e) (plane_set pp pn) d c1 c2.
+Proof. exact (line_segment_to_plane_feasible s e pp pn eps d c1 c2). Qed.
+Print Assumptions C10_line_segment_to_plane.
+Example C10_line_segment_to_plane_nonvacuous :
+  exists d c1 c2, line_segment_to_plane (V 0 0 1) (V 0 0 3) (V 0 0 0) (V 0 0 1) (/ 2) = (d, c1, c2) /\ dot (V 0 0 1 : V3R) (V 0 0 1) = 1.
+Proof. ex3. vsimp; ring. Qed.
+
+(** plane_to_plane: unit normals; both arms *)
+Theorem C10_plane_to_plane (p1 n1 p2 n2 : V3R) eps d c1 c2 :
+  dot n1 n1 = 1 -> dot n2 n2 = 1 -> 0 <= eps ->
+  plane_to_plane p1 n1 p2 n2 eps = (d, c1, c2) ->
+  feasible (plane_set p1 n1) (plane_set p2 n2) d c1 c2.
+Proof. exact (plane_to_plane_feasible p1 n1 p2 n2 eps d c1 c2). Qed.
+Print Assumptions C10_plane_to_plane.
+Example C10_plane_to_plane_nonvacuous :
+  exists d c1 c2, plane_to_plane (V 0 0 0) (V 0 0 1) (V 0 0 2) (V 0 0 1) (/ 2) = (d, c1, c2) /\ dot (V 0 0 1 : V3R) (V 0 0 1) = 1.
+Proof. ex3. vsimp; ring. Qed.
+
+(** plane_to_triangle (argmin/argmax of the signed vertex distances): PARTIAL -- needs [plane_triangle_band_ok]: if the extreme
+    vertices are strictly on opposite sides, the edge between them is not in the band 0 < (dir.pn)^2 < 1e-6 of the hard-wired
+    epsilon of the inner _line_segment_to_plane call; without it the statement is FALSE (next theorem) *)
+Theorem C10_plane_to_triangle_partial (pp pn a b c : V3R) d c1 c2 arm :
+  dot pn pn = 1 -> plane_triangle_band_ok pp pn a b c ->
+  plane_to_triangle pp pn a b c = (d, c1, c2, arm) ->
+  feasible (plane_set pp pn) (triangle_set a b c) d c1 c2.
+Proof. exact (plane_to_triangle_feasible_partial pp pn a b c d c1 c2 arm). Qed.
+Print Assumptions C10_plane_to_triangle_partial.
+Example C10_plane_to_triangle_partial_nonvacuous :
+  let pp : V3R := V 0 0 0 in let pn : V3R := V 0 0 1 in
+  let a : V3R := V 0 0 (-1) in let b : V3R := V 0 0 1 in let c : V3R := V 1 0 0 in
+  dot pn pn = 1 /\ plane_triangle_band_ok pp pn a b c /\
+  dot (vsub a pp) pn < 0 < dot (vsub b pp) pn /\
+  exists x, plane_to_triangle pp pn a b c = (0, x, x, 0%nat).
+Proof. exact plane_triangle_band_ok_nonvacuous. Qed.
+
+Theorem C10_plane_to_triangle_refuted :
+  exists (pp pn a b c : V3R) (d : R) (c1 c2 : V3R) (arm : nat),
+    dot pn pn = 1 /\ plane_to_triangle pp pn a b c = (d, c1, c2, arm) /\
+    ~ feasible (plane_set pp pn) (triangle_set a b c) d c1 c2.
+Proof. exact plane_to_triangle_feasible_refuted. Qed.
+Print Assumptions C10_plane_to_triangle_refuted.
+
